@@ -8,11 +8,12 @@
        attributes): never the enclosing scopes, the bound proto's content or anything dynamic;
        a method under the unconditional functools.cache reads class-level data only;
      * the generator reads no process-level input (cwd, environment, clock, randomness, id(),
-       hash(), set iteration) outside an explicit allow-list, and the compiler keeps no
+       hash(), set iteration, the file system / the output directory) outside an explicit allow-list,
+       and neither does the front end (source path aside), and the compiler keeps no
        mutable state across compilations outside an explicit allow-list.
    The scan is syntactic: it bounds where such inputs can enter, it does not prove their absence
    from data flowing through allowed sites (that is what the sampled process-level runs cover). *)
-From Coq Require Import Bool List String.
+From Coq Require Import Bool List String ZArith.
 From BPGen Require Import GenMemo.
 Import ListNotations.
 Open Scope string_scope.
@@ -76,10 +77,18 @@ Definition allowed_sites : list (string * string) := [
   ("renderer/renderer.py:Renderer.get_outdir_default", "read .filepath");
   ("renderer/renderer.py:Renderer.get_outdir_default", "os.path.abspath");
   ("renderer/renderer.py:Renderer.get_outdir_default", "os.getcwd");
-  ("renderer/renderer.py:Renderer.render", "open()");
+  ("renderer/renderer.py:Renderer.render", "open(w)");
   ("utils.py:safe_hash.__hash__", "hash()");
   ("utils.py:safe_hash.__hash__", "id()");
-  ("utils.py:write_file", "open()")
+  ("utils.py:write_file", "open(w)")
+].
+(* the front end, source path aside: the source file is read; the working directory is consulted
+   only when a STRING is parsed (import_base, below); samefile compares paths of files it opens *)
+Definition allowed_frontend_sites : list (string * string) := [
+  ("parser.py:Parser.parse", "open(read)");
+  ("parser.py:Parser._get_child_filepath", "os.getcwd");
+  ("parser.py:Parser._check_parsing_file", "os.path.samefile");
+  ("parser.py:Parser.p_import", "os.path.samefile")
 ].
 (* read-only tables; _TYPE_MISSING / _UINT_MISSING are placeholder types shared by all compilations
    (default of Array.element_type / Enum.type, replaced by the parser; _UINT_MISSING is frozen,
@@ -92,7 +101,9 @@ Definition allowed_globals : list (string * string) := [
   ("renderer/impls/__init__.py:<module>", "module-level mutable container renderer_registry")
 ].
 
-Definition sites_ok : bool := forallb (fun p => pair_in p allowed_sites) impure_sites.
+Definition sites_ok : bool :=
+  forallb (fun p => pair_in p allowed_sites) impure_sites &&
+  forallb (fun p => pair_in p allowed_frontend_sites) frontend_sites.
 Definition globals_ok : bool := forallb (fun p => pair_in p allowed_globals) mutable_globals.
 Definition no_other_cache_users : bool :=
   match other_cache_users with [] => true | _ => false end.
@@ -120,3 +131,12 @@ Lemma decision_inputs_hold :
 Proof.
   split; [exact classes_ok_holds|]. split; [exact methods_ok_holds|]. exact sites_ok_holds.
 Qed.
+
+(* the environment never decides what is compiled or what is left in the output directory:
+   a relative import of a FILE being compiled is resolved against that file's directory (the
+   working directory is used only when a string is parsed), an absolute one is used as written;
+   Renderer.render writes its output without looking at what the output directory holds *)
+Lemma environment_decisions :
+  (forall f, import_base true f = 0%Z) /\ import_base false true = 1%Z /\ import_base false false = 2%Z /\
+  render_writes_unconditionally = true.
+Proof. split; [intros []; reflexivity|]. repeat split; reflexivity. Qed.
